@@ -31,11 +31,19 @@ func (o *optimizer) optimizeAllFiles(printer FilePrinter) {
 		return
 	}
 
+	// a file of a pkg with tests is visited twice (the pkg and its test variant share the syntax tree),
+	// optimizing the optimized tree again is not idempotent, e.g. imports.Clean drops a blank import then
+	done := map[string]bool{}
 	o.m.Loader.VisitAllFiles(func(f *loader.File) {
 		if !imports.Uses(f, seqPkg.Types) {
 			log.Printf("skip file: %s\n", f.Filename)
 			return
 		}
+		if done[f.Filename] {
+			log.Printf("skip file: %s (done)\n", f.Filename)
+			return
+		}
+		done[f.Filename] = true
 
 		// 1. optimize file
 		log.Printf("visit file: %s\n", f.Filename)
